@@ -124,3 +124,54 @@ func VerifC06_Containment() {
 	verifrt.Assert(len(ce.stack) == 0 && len(ce.frames) == 0, "call engine stack and frames are empty after a failed call")
 	verifrt.Cover("contained")
 }
+
+// VerifC06_ExitInImportedModule: the call is made on module "app", which runs a function imported from module "lib"; lib's
+// function reaches a host function that exits the module it was called from (what WASI proc_exit does) - by a direct call
+// or through lib's table. The host function must be handed the instance whose code called it (lib): afterwards lib is
+// closed, app - which never exited - is open, registered and keeps computing, and the caller got the exit error.
+func VerifC06_ExitInImportedModule() {
+	ctx := context.Background()
+	w := newVerifWorld(ctx)
+	code := verifrt.U32("code")
+	var calledFrom string
+	_, err := w.hostModule(ctx, []verifHost{{name: "exit", fn: func(ctx context.Context, mod api.Module, _ []uint64) {
+		calledFrom = mod.Name()
+		_ = mod.CloseWithExitCode(ctx, code)
+		panic(sys.NewExitError(code))
+	}}}, nil)
+	verifrt.Assert(err == nil, "host module accepted")
+	if err != nil {
+		return
+	}
+	// lib: imports env.exit (function 0), has it in its table; direct() = call 0 ; indirect() = call_indirect table[0]
+	lib := &verifModule{tableMin: 1, elems: []uint32{0}, imports: []verifImport{{module: "env", name: "exit"}},
+		funcs: []verifFunc{
+			{export: "direct", body: []byte{0x10, 0x00}},
+			{export: "indirect", body: []byte{0x41, 0x00, 0x11, 0x00, 0x00}},
+		}}
+	vl, err := w.guest(ctx, lib, "lib", nil, false)
+	verifrt.Assert(err == nil, "lib accepted")
+	if err != nil {
+		return
+	}
+	how := []string{"direct", "indirect"}[verifrt.Choose("how", 2)]
+	app := &verifModule{tableMin: -1, imports: []verifImport{{module: "lib", name: how}},
+		funcs: []verifFunc{
+			{export: "run", body: []byte{0x10, 0x00}},
+			{results: []byte{vI32}, export: "ping", body: []byte{0x41, 0x07}},
+		}}
+	va, err := w.guest(ctx, app, "app", nil, false)
+	verifrt.Assert(err == nil, "app accepted")
+	if err != nil {
+		return
+	}
+	_, err = va.inst.ExportedFunction("run").Call(ctx)
+	ec, isExit := verifExitCode(err)
+	verifrt.Assert(isExit && ec == code, "the caller receives the exit error carrying the code")
+	verifrt.Assert(calledFrom == "lib", "the host function is handed the instance whose code called it")
+	verifrt.Assert(vl.inst.IsClosed(), "the instance that exited is closed")
+	verifrt.Assert(!va.inst.IsClosed() && w.store.Module("app") != nil, "the instance that did not exit stays open and registered")
+	r, err := va.inst.ExportedFunction("ping").Call(ctx)
+	verifrt.Assert(err == nil && len(r) == 1 && r[0] == 7, "the instance that did not exit keeps computing")
+	verifrt.Cover("exited")
+}
